@@ -637,6 +637,8 @@ def run_r4b(ctx, rule):
                     e = sf.rvalue(s["rv"])
                     for x in (e[2], e[3]):
                         v = ceval(x)
+                        if v is None and x[0] == "l":
+                            x = sf.origin(x)  # `let shift = 7 * i;`
                         if v is not None:
                             out.add(v)
                         elif x[0] == "bin" and x[1] in ("Mul", "MulUnchecked"):
@@ -731,6 +733,20 @@ def run_r5(ctx, rule):
                         keep.append((e[1], e[3][1]))
                     elif e[1] in ("Le", "Lt") and e[2][0] == "c" and e[3][0] != "c" and 1 <= e[2][1] <= 9:
                         keep.append((flip[e[1]], e[2][1]))
+        # or the kept length is computed as max(.., 5) / defaults to 5 (`rposition(..).map_or(5, |i| (i + 1).max(5))`)
+        for g2 in [wf] + [g for i, g in facts.fns.items() if g.kind == "Closure" and i.startswith(wf.id + "::{closure")]:
+            s2 = sym(g2)
+            for bb, t in g2.calls():
+                cn = norm(util.cname(t))
+                if cn.endswith(("Ord::max", "::max")) and len(t["args"]) == 2:
+                    for a in t["args"]:
+                        v = s2.operand(a)
+                        if v[0] == "c" and 1 <= v[1] <= 9:
+                            keep.append(("Ge", v[1]))
+                if cn.endswith("Option::map_or") and t["args"]:
+                    v = s2.operand(t["args"][1]) if len(t["args"]) > 1 else ("?",)
+                    if v[0] == "c" and 1 <= v[1] <= 9:
+                        keep.append(("Ge", v[1]))
         okk = bool(keep) and all((op == "Ge" and k >= 5) or (op == "Gt" and k >= 4) for op, k in keep)
         rule.check(okk, "%s/header-min-fields" % mod, "%s: the writer drops trailing zero fields only while at least 5 remain (%s)" % (mod, keep), wf.loc())
         # the parser requires 5 fields before the first optional end of line
